@@ -129,7 +129,12 @@ func (dist *GevDistribution) Pdf(r Scalar, x ConstScalar) error {
 
 func (dist *GevDistribution) LogCdf(r Scalar, x ConstScalar) error {
   if dist.Xi.GetFloat64()*(x.GetFloat64() - dist.Mu.GetFloat64())/dist.Sigma.GetFloat64() <= -1 {
-    r.SetFloat64(math.Inf(-1))
+    if dist.Xi.GetFloat64() < 0.0 {
+      // beyond the upper end of the support
+      r.SetFloat64(0.0)
+    } else {
+      r.SetFloat64(math.Inf(-1))
+    }
     return nil
   }
   r.Set(x)
